@@ -150,6 +150,14 @@ func init() {
 				// schedules: concurrent clients, FIFO judged offline from Created / Start of all jobs + linearizability
 				return linCase(c, "C06")
 			}
+			if c.Idx%8 == 5 {
+				// start order does not depend on how the runner keeps its job lists: saves with retention reorder / shrink
+				// them while jobs run and wait
+				o.StoreDir = c.TmpDir
+				o.Retention = true
+				o.WSave = 16
+				o.MaxOps = 40
+			}
 			return histCase(c, o, 400)
 		},
 		MinDistinct: 4,
@@ -162,6 +170,10 @@ func init() {
 		RunCase: func(c *CaseCtx) *CaseResult {
 			if c.Idx%100 == 99 {
 				return taskOrderCase(c)
+			}
+			if c.Idx%12 == 1 {
+				// the listings of a runner restarted on a store that holds jobs in every persisted state (also interrupted ones)
+				return simpleCase(c, drv.PreparedStoreCase(c.Seed, c.TmpDir), 100)
 			}
 			if c.Idx%6 == 3 {
 				// flags vs job list vs next request over the life cycle of a definition: removed by a reload while its jobs
@@ -229,6 +241,7 @@ func init() {
 					return gen.GraphFromEdges(names, edges)
 				}
 			}
+			o.HTTP = c.Idx%4 == 1 // what the HTTP API reports about jobs that could not be started (and all others)
 			return histCase(c, o, 300)
 		},
 		Exhaustive:  func(t string) bool { return false },
